@@ -1130,6 +1130,10 @@ func (f *Frugal) validateConstant(constant *Constant) error {
 		return fmt.Errorf("Invalid type %s", constant.Type.Name)
 	}
 
+	if err := f.validateValue(constant.Type, constant.Value); err != nil {
+		return fmt.Errorf("Invalid value for constant %s: %s", constant.Name, err)
+	}
+
 	identifier, ok := constant.Value.(Identifier)
 	if !ok {
 		// Just a value, which is fine
@@ -1295,8 +1299,143 @@ func (f *Frugal) validateStructLike(s *Struct) error {
 			return fmt.Errorf("Duplicate field id %d in struct %s", field.ID, s.Name)
 		}
 		ids[field.ID] = struct{}{}
+		if err := f.validateValue(field.Type, field.Default); err != nil {
+			return fmt.Errorf("Invalid default for field %s of struct %s: %s", field.Name, s.Name, err)
+		}
 	}
 	return nil
+}
+
+// validateValue checks that the shape of a constant or default value fits the
+// type it is given to: a string for string and binary, a list for lists and
+// sets, a map for maps, structs, unions and exceptions, a number or the name
+// of a value for an enum. Identifiers are resolved by validateConstant and by
+// the generators; here only the name of an enum value is looked at, which
+// fits neither a container nor a struct.
+func (f *Frugal) validateValue(typ *Type, value interface{}) error {
+	if value == nil || typ == nil || !f.isValidType(typ) {
+		return nil
+	}
+	t := f.UnderlyingType(typ)
+	mismatch := func(expected string) error {
+		return fmt.Errorf("%s expects %s", typ.String(), expected)
+	}
+
+	if identifier, ok := value.(Identifier); ok {
+		if (t.IsContainer() || f.findStructLike(t) != nil) && f.isEnumValue(identifier) {
+			return mismatch("a list or map, not the enum value " + string(identifier))
+		}
+		return nil
+	}
+
+	switch {
+	case t.Name == "string" || t.Name == "binary":
+		if _, ok := value.(string); !ok {
+			return mismatch("a string")
+		}
+	case t.Name == "list" || t.Name == "set":
+		elems, ok := value.([]interface{})
+		if !ok {
+			return mismatch("a list of values")
+		}
+		for _, elem := range elems {
+			if err := f.validateValue(t.ValueType, elem); err != nil {
+				return err
+			}
+		}
+	case t.Name == "map":
+		pairs, ok := value.([]KeyValue)
+		if !ok {
+			return mismatch("a map of values")
+		}
+		for _, pair := range pairs {
+			if err := f.validateValue(t.KeyType, pair.Key); err != nil {
+				return err
+			}
+			if err := f.validateValue(t.ValueType, pair.Value); err != nil {
+				return err
+			}
+		}
+	case t.IsPrimitive():
+		// Numbers and booleans are converted by the generators.
+	case f.IsEnum(t):
+		if _, ok := value.(int64); !ok {
+			return mismatch("a number or the name of one of its values")
+		}
+	default:
+		pairs, ok := value.([]KeyValue)
+		if !ok {
+			return mismatch("a map of field names to values")
+		}
+		s := f.findStructLike(t)
+		if s == nil {
+			return nil
+		}
+		for _, pair := range pairs {
+			name, ok := pair.Key.(string)
+			if !ok {
+				continue
+			}
+			for _, field := range s.Fields {
+				if field.Name == name {
+					// The field's type is written relative to the file declaring the struct.
+					if err := f.validateValue(qualifyType(field.Type, t.IncludeName()), pair.Value); err != nil {
+						return err
+					}
+				}
+			}
+		}
+	}
+	return nil
+}
+
+// findStructLike returns the struct, union or exception with the given
+// (possibly include-qualified) type, nil if there is none.
+func (f *Frugal) findStructLike(t *Type) *Struct {
+	frugal := f
+	if include := t.IncludeName(); include != "" {
+		parsed, ok := f.ParsedIncludes[include]
+		if !ok {
+			return nil
+		}
+		frugal = parsed
+	}
+	for _, structs := range [][]*Struct{frugal.Structs, frugal.Unions, frugal.Exceptions} {
+		for _, s := range structs {
+			if s.Name == t.ParamName() {
+				return s
+			}
+		}
+	}
+	return nil
+}
+
+// isEnumValue indicates if the identifier names a value of an enum declared
+// in this file (Enum.VALUE) or in an include (include.Enum.VALUE).
+func (f *Frugal) isEnumValue(identifier Identifier) bool {
+	pieces := strings.Split(string(identifier), ".")
+	frugal := f
+	if len(pieces) == 3 {
+		parsed, ok := f.ParsedIncludes[pieces[0]]
+		if !ok {
+			return false
+		}
+		frugal = parsed
+		pieces = pieces[1:]
+	}
+	if len(pieces) != 2 {
+		return false
+	}
+	for _, enum := range frugal.Enums {
+		if enum.Name == pieces[0] {
+			for _, value := range enum.Values {
+				if value.Name == pieces[1] {
+					return true
+				}
+			}
+		}
+	}
+	return false
 }
 
 func (f *Frugal) isValidType(typ *Type) bool {
@@ -1417,6 +1556,10 @@ func (f *Frugal) validateServiceTypes(service *Service, includes map[string]*Fru
 			if !f.isValidType(field.Type) {
 				return fmt.Errorf("Invalid argument type %s for %s.%s",
 					field.Type.Name, service.Name, method.Name)
+			}
+			if err := f.validateValue(field.Type, field.Default); err != nil {
+				return fmt.Errorf("Invalid default for argument %s of %s.%s: %s",
+					field.Name, service.Name, method.Name, err)
 			}
 		}
 		for _, field := range method.Exceptions {
